@@ -853,6 +853,8 @@ func classOf(what string) string {
 	switch {
 	case strings.Contains(what, "panic"):
 		return "panic"
+	case strings.HasPrefix(what, "values:"):
+		return "values-not-cleared"
 	case strings.Contains(what, "registration refused"):
 		return "registration-refused"
 	case strings.Contains(what, "duplicate accepted"), strings.Contains(what, "returned true on a terminated"):
